@@ -307,6 +307,32 @@ func TestC05(t *testing.T) {
 			}
 			rec.Eval("empty+all-invalid", n)
 
+			// a data section beyond 64 KiB and beyond 128 KiB (the encoder
+			// buffers all records and checksums them in one piece)
+			for _, nrec := range []int{2300, 4700} {
+				for _, be := range []bool{false, true} {
+					fs := &gen.FileSpec{Type: int(fit.FileTypeActivity), HdrCRC: true, Proto: 0x20, BigEndian: be, FileId: gen.MsgSpec{Fields: map[string]fitmodel.Val{}}}
+					var msgs []gen.MsgSpec
+					for i := 0; i < nrec; i++ {
+						msgs = append(msgs, gen.MsgSpec{Global: 20, Fields: map[string]fitmodel.Val{
+							"Timestamp":   fitmodel.T(fitmodel.FitEpochUnix+1000000000+int64(i), 0),
+							"PositionLat": fitmodel.C(int32(500000000 + i*37)), "PositionLong": fitmodel.C(int32(-100000000 - i*91)),
+							"HeartRate": fitmodel.U(uint64(60 + i%140)), "Cadence": fitmodel.U(uint64(i % 120)), "Power": fitmodel.U(uint64(i % 1500)),
+							"Temperature": fitmodel.I(int64(i%60 - 20)), "Grade": fitmodel.I(int64(i%2000 - 1000)),
+							"AccumulatedPower": fitmodel.U(uint64(i) * 211), "EnhancedSpeed": fitmodel.U(uint64(i%20000 + 1)), "EnhancedAltitude": fitmodel.U(uint64(2500 + i%9000)),
+						}})
+					}
+					fs.Slots = []gen.SlotSpec{{Name: "Records", Msgs: msgs}}
+					labels := map[string]int{}
+					msg, ok := checkEncode(fs, labels)
+					rec.Eval("big-file", 1)
+					rec.NonTrivialEnum(1)
+					if !ok {
+						rec.Fail("big-file", "", fmt.Sprintf("activity with %d records: %s", nrec, trunc(msg)), fs)
+					}
+				}
+			}
+
 		}
 
 		hx.RapidCheck(t, rec, "files", func(rt *rapid.T, fail func(string, string, any)) {
@@ -337,4 +363,11 @@ func TestC05(t *testing.T) {
 			}
 		})
 	})
+}
+
+func trunc(s string) string {
+	if len(s) > 600 {
+		return s[:600] + "…"
+	}
+	return s
 }
